@@ -71,6 +71,20 @@ def run(ctx):
     ctx.rule("R2", "unit-constant identities and CODATA agreement (constant analysis of PhysicalConstants)")
     ctx.rule("R3", "bookkeeping freshness: Ek/T/V given to writers are recomputed after the last velocity mutation; formulas of Ek and T")
     ctx.rule("R4", "who-may-write inventory for molecule.velocities / coordinates / acc")
+    # options whose documented meaning is their truth value (default False / True): deciding them by *presence* of the key turns an explicit `False` into `True`
+    # (e.g. control_energy_shift=False forwarded from a configuration dictionary would rescale the velocities of an NVE run every step)
+    BOOLEAN_OPTIONS = {"control_energy_shift", "write_mo", "transition_properties", "decohere_on_hop", "detect_crossings"}
+    n_bool = 0
+    for rel_ in (MD, "seqm/NonadiabaticDynamics.py"):
+        m_ = repo.mod(rel_)
+        for n_ in ast.walk(m_.tree):
+            if isinstance(n_, ast.Compare) and len(n_.ops) == 1 and isinstance(n_.ops[0], (ast.In, ast.NotIn)) and isinstance(n_.left, ast.Constant) and n_.left.value in BOOLEAN_OPTIONS:
+                ctx.fail("R4", m_, n_, m_.qualname_of(n_), n_, f"`{norm(n_)}` decides the boolean option '{n_.left.value}' by the presence of its key: an explicit False switches the feature on "
+                         f"(for control_energy_shift: the velocities of a plain NVE run are rescaled every step; reversibility and the O(dt^2) energy fluctuation are lost)")
+            if isinstance(n_, ast.Call) and callee_attr(n_) == "get" and n_.args and isinstance(n_.args[0], ast.Constant) and n_.args[0].value in BOOLEAN_OPTIONS:
+                n_bool += 1
+    ctx.check(n_bool >= 4, "R4", repo.mod(MD), repo.mod(MD).tree, "<module>", "boolean options", f"boolean options are read by value ({n_bool} reads through .get(key, default))",
+              f"only {n_bool} of the documented boolean options are read by value")
 
     word_re = re.compile(r"^(TKDEAKT|KDEAK)H?$")
     for rel, q in STEP_FUNCS:
